@@ -839,8 +839,16 @@ def check_dataset_load_history(run, tree):
         ("mesh and particles, then particles only", [{"mesh": ["density"], "part": ["mass", "id"]}, {"part": ["mass"]}]),
         ("the same call twice", [{"mesh": ["density", "level"]}, {"mesh": ["density", "level"]}]),
         ("three loads with alternating variable sets", [{"mesh": ["density", "level"]}, {"mesh": ["level"]}, {"mesh": ["density"]}]),
+        # the selection written the ways users write it: a group produced by an earlier, restricted call is replaced by a later call that
+        # asks for the group by name (a list of names / a variable list) - "already there" is no reason to skip it
+        ("a restricted mesh (predicate), then the mesh asked for by name", [{"mesh": ["density", "level"]}, {"mesh": ["density", "level"]}],
+         [{"mesh": {"density": "PREDICATE"}}, ["mesh"]]),
+        ("mesh and particles by name, then the particles by name with another cpu list", [{"mesh": ["density"], "part": ["mass"]}, {"part": ["mass"]}],
+         [["mesh", "part"], ("part",)]),
+        ("no selection at all, twice", [{"mesh": ["density"]}, {"mesh": ["density"]}], [None, None]),
     ]
-    for label, seq in histories:
+    for label, seq, *sel_spec in histories:
+        selects = sel_spec[0] if sel_spec else ["SELECT-%d" % i for i in range(len(seq))]
         construct = "io/ramses.py::RamsesDataset.load[history: %s]" % label
         try:
             hooks = core_hooks()
@@ -858,7 +866,7 @@ def check_dataset_load_history(run, tree):
             latest = {}
             for i, step in enumerate(seq):
                 n_hook = len(hooked)
-                r = ModelEval(tree, load, {}, hooks).invoke(load, [ds], {"select": "SELECT-%d" % i}, None)
+                r = ModelEval(tree, load, {}, hooks).invoke(load, [ds], {"select": selects[i]}, None)
                 if r is not ds:
                     problems.append("load %d returns %r (required the dataset)" % (i + 1, r))
                 latest.update({name: (i, groups[i][name], step[name]) for name in step})
@@ -878,7 +886,9 @@ def check_dataset_load_history(run, tree):
                 if problems:
                     break
             lm = ds._attrs["loader"]
-            if not problems and any(c[1].get("meta") is not ds._attrs["meta"] or c[1].get("units") != "UNITS" or not c[1].get("select", "").startswith("SELECT") for c in lm.calls):
+            if not problems and len(lm.calls) != len(seq):
+                problems.append("the loader was called %d time(s) for %d loads" % (len(lm.calls), len(seq)))
+            if not problems and any(c[1].get("meta") is not ds._attrs["meta"] or c[1].get("units") != "UNITS" or c[1].get("select") != selects[n_] for n_, c in enumerate(lm.calls)):
                 problems.append("the loader is not given the dataset's own meta / units / the caller's arguments: %r" % ([sorted(c[1]) for c in lm.calls],))
             run.ob(construct, not problems, load.where(), "; ".join(problems[:2]) or "every group is what the latest call producing it returned; earlier groups kept; hook applied each time",
                    "a reload with fewer variables (or another row order) keeps variables of the group it replaces: values from another selection next to the new ones")
